@@ -12,6 +12,7 @@ use rt::run::{self, ParentArgs, Plan, Tier, WorkerArgs};
 mod hist_sized;
 mod hist_sized_ops;
 mod plans;
+mod sched;
 
 #[cfg(feature = "std")]
 pub const FLAVOUR: &str = "all";
